@@ -14,7 +14,7 @@ def run(rep, tier):
                     cls._execute_json, cls._execute_multipart)
     parts = xh.write_module("hC11_parts", H.parts_source())
     targets = [f"{parts}.check_{name}" for name, *_ in H.CLIENTS] + [f"{parts}.check_kwargs_{name}" for name, *_ in H.CLIENTS]
-    extra = [f"{MOD}.check_empty_variables", f"{MOD}.check_interleaving", f"{MOD}.check_call_history", f"{MOD}.twin_shared_upload_reached"]
+    extra = [f"{MOD}.check_empty_variables", f"{MOD}.check_anonymous_operation", f"{MOD}.check_interleaving", f"{MOD}.check_call_history", f"{MOD}.twin_shared_upload_reached"]
     t = 600 if tier == "quick" else 3000
     res = xh.run_targets(targets + extra, timeout=t)
     xh.fold(rep, parts, [r for r in res if r.target.startswith(parts)])
